@@ -25,8 +25,21 @@ Definition armed_of (l : list gk) : gk -> bool := fun k => existsb (gk_eqb k) l.
 Definition parks (ar : gk -> bool) (th : thread) : bool :=
   match gate_of th with Some k => ar k | None => false end.
 
+(* The close loop ranges over a Go map: its order is the runtime's choice.  [rot] tells the
+   model's close thread to move the head of a two-element remaining snapshot to the back before
+   it takes a channel (label LStep t false at CLoop); the correspondence accepts a case when one
+   of the two orders reproduces the observation. *)
+Definition wants_rotation (rot : bool) (th : thread) : bool :=
+  match th with
+  | TCls k => match k_pc k, k_cur k, k_rest k with
+              | CLoop, None, [_; _] => rot
+              | _, _, _ => false
+              end
+  | _ => false
+  end.
+
 (* run thread [t] until it parks at an armed gate, is not enabled, or ends *)
-Fixpoint run_thread (fuel : nat) (ar : gk -> bool) (s : st) (t : tid) : st :=
+Fixpoint run_thread (fuel : nat) (rot : bool) (ar : gk -> bool) (s : st) (t : tid) : st :=
   match fuel with
   | O => s
   | S f =>
@@ -34,8 +47,16 @@ Fixpoint run_thread (fuel : nat) (ar : gk -> bool) (s : st) (t : tid) : st :=
       | None => s
       | Some th =>
           if parks ar th then s
+          else if wants_rotation rot th then
+            match step_thread s t false with
+            | Some s1 => match step_thread s1 t true with
+                         | Some s' => run_thread f rot ar s' t
+                         | None => s1
+                         end
+            | None => s
+            end
           else match step_thread s t true with
-               | Some s' => run_thread f ar s' t
+               | Some s' => run_thread f rot ar s' t
                | None => s
                end
       end
@@ -45,10 +66,8 @@ Definition ext_tids (s : st) : list tid := map (fun k => 2 * N.of_nat k) (seq 0 
 Definition int_tids (s : st) : list tid := map (fun k => 2 * N.of_nat k + 1) (seq 0 (N.to_nat (next_int s))).
 Definition all_tids (s : st) : list tid := ext_tids s ++ int_tids s.
 
-Definition round (ar : gk -> bool) (s : st) : st :=
-  fold_left (fun s t => run_thread 100 ar s t) (all_tids s) s.
-Fixpoint settle (n : nat) (ar : gk -> bool) (s : st) : st :=
-  match n with O => s | S m => settle m ar (round ar s) end.
+Definition round (rot : bool) (ar : gk -> bool) (s : st) : st :=
+  fold_left (fun s t => run_thread 100 rot ar s t) (all_tids s) s.
 Definition rounds := 6%nat.
 
 (* thread selectors for threads the driver did not start itself *)
@@ -65,7 +84,7 @@ Inductive cmd :=
     (* the k-th spawned operation's thread, parked at gate g for channel c; when several
        threads were woken at the same wait gate the winner's identity is scheduler-chosen,
        so any thread parked at (g, c) is accepted *)
-| CReleaseClose (b : bool)           (* the close thread that won the status flip *)
+| CReleaseClose (g : gk) (c : ch) (b : bool)   (* the close thread that won the status flip, parked at g for c *)
 | CReleaseJob (c : ch) (b : bool)
 | CTimeout (k : N)
 | CTimeoutClose
@@ -121,32 +140,53 @@ Definition find_parked (ar : gk -> bool) (s : st) (k : N) (g : gk) (c : ch) : op
   else if at_gate ar s (2 * k) then None
   else match find (parked_at ar s g c) (ext_tids s) with Some t => Some (s, t) | None => None end.
 
-Definition do_cmd (ar : gk -> bool) (s : st) (c : cmd) : option st :=
-  let fin o := match o with Some s' => Some (settle rounds ar s') | None => None end in
+(* Dissolver jobs released by a drain command run as soon as their subLock is free (in the
+   implementation they are goroutines blocked on that mutex); in the model a job that has not yet
+   acquired the lock is still in the queue, so the harness starts such "eager" jobs (label
+   LJobStart) whenever the lock becomes free. *)
+Fixpoint start_eager (s : st) (eg : list ch) : st * list ch :=
+  match eg with
+  | [] => (s, [])
+  | c :: r =>
+      match job_start s c with
+      | Some s' => start_eager s' r
+      | None => let '(s2, r2) := start_eager s r in (s2, c :: r2)
+      end
+  end.
+Fixpoint settle_e (n : nat) (rot : bool) (ar : gk -> bool) (s : st) (eg : list ch) : st * list ch :=
+  match n with
+  | O => (s, eg)
+  | S m => let '(s2, eg2) := start_eager (round rot ar s) eg in settle_e m rot ar s2 eg2
+  end.
+
+Definition do_cmd (rot : bool) (ar : gk -> bool) (se : st * list ch) (c : cmd) : option (st * list ch) :=
+  let '(s, eg) := se in
+  let fin o := match o with Some s' => Some (settle_e rounds rot ar s' eg) | None => None end in
   match c with
   | CSpawn o => fin (spawn s o)
   | CRelease k g c b =>
       match find_parked ar s k g c with Some (s1, t) => fin (step_thread s1 t b) | None => None end
-  | CReleaseClose b =>
+  | CReleaseClose g c b =>
       match find_close s with
-      | Some t => if at_gate ar s t then fin (step_thread s t b) else None
+      | Some t => if parked_at ar s g c t then fin (step_thread s t b) else None
       | None => None
       end
   | CReleaseJob c b =>
       match find_job s c with Some t => fin (step_thread s t b) | None => None end
   | CTimeout k => fin (timeout_thread s (2 * k))
   | CTimeoutClose => match find_close s with Some t => fin (timeout_thread s t) | None => None end
-  | CDrain =>
-      fin (Some (fold_left (fun s c => match job_start s c with Some s' => s' | None => s end) (jobs s) s))
+  | CDrain => Some (settle_e rounds rot ar s (jobs s))
   | COtherAdd c b => fin (other_add s c b)
   | COtherRem c => fin (other_rem s c)
   end.
 
-Fixpoint run_cmds (ar : gk -> bool) (s : st) (cs : list cmd) : option st :=
+Fixpoint run_cmds_e (rot : bool) (ar : gk -> bool) (se : st * list ch) (cs : list cmd) : option (st * list ch) :=
   match cs with
-  | [] => Some s
-  | c :: cs' => match do_cmd ar s c with Some s' => run_cmds ar s' cs' | None => None end
+  | [] => Some se
+  | c :: cs' => match do_cmd rot ar se c with Some se' => run_cmds_e rot ar se' cs' | None => None end
   end.
+Definition run_cmds (rot : bool) (ar : gk -> bool) (s : st) (cs : list cmd) : option st :=
+  option_map fst (run_cmds_e rot ar (s, []) cs).
 
 Definition settled_b (s : st) : bool :=
   forallb (fun t => match thr s t with None => true | Some _ => false end) (all_tids s).
@@ -200,6 +240,10 @@ Record chobs := mkChObs {
   co_deliv : N              (* copies of a marker publication received by the connection *)
 }.
 
+(* after every driver command, per channel of the universe (in order):
+   NumSubscribers, broker-subscribed, subLock(ch) free *)
+Record snap := mkSnap { sn_nsubs : N; sn_bsub : bool; sn_free : bool }.
+
 Record obs := mkObs {
   ob_chs : list chobs;
   ob_status : N;            (* 1 connecting, 2 connected, 3 closed *)
@@ -208,7 +252,9 @@ Record obs := mkObs {
   ob_gsub : Z;              (* subscriptionsInflight gauge *)
   ob_trace : list oev;
   ob_settled : bool;        (* every driver-visible thread finished *)
-  ob_panic : bool
+  ob_panic : bool;
+  ob_drained : bool;        (* the run ended with a drain: no dissolver job is left *)
+  ob_snaps : list (list snap)
 }.
 
 Record case := mkCase { cs_armed : list gk; cs_cmds : list cmd; cs_obs : obs }.
@@ -216,7 +262,7 @@ Record case := mkCase { cs_armed : list gk; cs_cmds : list cmd; cs_obs : obs }.
 Definition status_n (x : status_t) : N := match x with Connecting => 1 | Connected => 2 | Closed => 3 end.
 Definition nsubs (s : st) (c : ch) : N := (match hub s c with Some _ => 1 | None => 0 end) + others s c.
 
-Definition model_of (c : case) : option st := run_cmds (armed_of (cs_armed c)) init (cs_cmds c).
+Definition model_of (rot : bool) (c : case) : option st := run_cmds rot (armed_of (cs_armed c)) init (cs_cmds c).
 
 Definition ch_routing_ok (s : st) (o : chobs) : bool :=
   let c := co_ch o in
@@ -237,19 +283,44 @@ Definition gauges_ok (s : st) (ob : obs) : bool :=
   (gconn s =? ob_gconn ob)%Z &&
   (fold_left (fun z o => (z + gsub s (co_ch o))%Z) (ob_chs ob) 0%Z =? ob_gsub ob)%Z.
 
+(* the per-command snapshots of the model *)
+Definition snap_of (s : st) (c : ch) : snap := mkSnap (nsubs s c) (bsub s c) (negb (slock s c)).
+Fixpoint run_snaps (rot : bool) (ar : gk -> bool) (chs : list ch) (se : st * list ch) (cs : list cmd) : option (list (list snap)) :=
+  match cs with
+  | [] => Some []
+  | c :: cs' =>
+      match do_cmd rot ar se c with
+      | Some se' => match run_snaps rot ar chs se' cs' with
+                    | Some l => Some (map (snap_of (fst se')) chs :: l)
+                    | None => None
+                    end
+      | None => None
+      end
+  end.
+Definition snap_eqb (a b : snap) : bool :=
+  (sn_nsubs a =? sn_nsubs b) && Bool.eqb (sn_bsub a) (sn_bsub b) && Bool.eqb (sn_free a) (sn_free b).
+Definition snaps_ok (rot : bool) (c : case) : bool :=
+  match run_snaps rot (armed_of (cs_armed c)) (map co_ch (ob_chs (cs_obs c))) (init, []) (cs_cmds c) with
+  | Some l => list_eqb (list_eqb snap_eqb) l (ob_snaps (cs_obs c))
+  | None => false
+  end.
+
 (* full comparison: every projected observable *)
-Definition corr_all (c : case) : bool :=
-  match model_of c with
+Definition corr_all_rot (rot : bool) (c : case) : bool :=
+  match model_of rot c with
   | None => false
   | Some s =>
       let ob := cs_obs c in
-      conn_ok s ob && gauges_ok s ob &&
+      conn_ok s ob && gauges_ok s ob && snaps_ok rot c &&
+      (negb (ob_drained ob) || match jobs s with [] => true | _ => false end) &&
       forallb (fun o => ch_routing_ok s o && ch_pres_ok s o && ch_bsub_ok s o && ch_trace_ok s ob o) (ob_chs ob)
   end.
 
+Definition corr_all (c : case) : bool := corr_all_rot false c || corr_all_rot true c.
+
 (* debugging aid: which component of [corr_all] disagrees *)
-Definition diag (c : case) : option (bool * bool * list (bool * bool * bool * bool)) :=
-  match model_of c with
+Definition diag (rot : bool) (c : case) : option (bool * bool * list (bool * bool * bool * bool)) :=
+  match model_of rot c with
   | None => None
   | Some s =>
       let ob := cs_obs c in
@@ -258,9 +329,9 @@ Definition diag (c : case) : option (bool * bool * list (bool * bool * bool * bo
   end.
 
 (* debugging aid: index of the first command the model does not enable *)
-Fixpoint first_fail (ar : gk -> bool) (s : st) (cs : list cmd) (i : N) : option N :=
+Fixpoint first_fail (rot : bool) (ar : gk -> bool) (se : st * list ch) (cs : list cmd) (i : N) : option N :=
   match cs with
   | [] => None
-  | c :: cs' => match do_cmd ar s c with Some s' => first_fail ar s' cs' (i + 1) | None => Some i end
+  | c :: cs' => match do_cmd rot ar se c with Some se' => first_fail rot ar se' cs' (i + 1) | None => Some i end
   end.
-Definition first_fail_of (c : case) := first_fail (armed_of (cs_armed c)) init (cs_cmds c) 0.
+Definition first_fail_of (rot : bool) (c : case) := first_fail rot (armed_of (cs_armed c)) (init, []) (cs_cmds c) 0.
